@@ -23,6 +23,11 @@ def traces(ctx, thorough, features_list=((),)):
         for sd in range(ctx.seed, ctx.seed + (3 if thorough else 2)):
             out = os.path.join(vlib.WORK, f"race-{sd}-{os.getpid()}.ndjson")
             p = vlib.run_bin("amv", ["race-stress", out, sd, rounds], features=feats, timeout=600)
+            why = vlib.died(p)
+            if why:
+                ctx.violation(f"{ctx.prop}/race-crash", f"the process running concurrent calls on one cache died ({why})",
+                              dict(seed=sd, rounds=rounds, features=list(feats), stderr=p.stderr[-1500:]))
+                continue
             rep = worlds.parse_report(p)
             ctx.case(dict(seed=sd, features=list(feats), **rep))
             ctx.cov.setdefault("race_runs", []).append(dict(seed=sd, features=list(feats), **rep))
